@@ -6,7 +6,7 @@ checks="${@:-$id}"
 wt=${SEEDROOT:-/tmp/seed}/$id
 export VERIF_REPO=$wt VERIF_BUILD=/dev/shm/vb-seed-$id VERIF_OUT=/dev/shm/vb-seed-$id/out
 for c in $checks; do
-  out=$(/verif/run $c $tier 2>&1); rc=$?
+  out=$(${VERIF_HOME:-/verif}/run $c $tier 2>&1); rc=$?
   echo "== $id change vs check $c ($tier): rc=$rc  $(echo "$out" | grep -c '^VIOLATION') violations"
   echo "$out" | grep -E "^VIOLATION|sig=|history=" | cut -c1-260 | head -9
   echo "$out" | tail -1 | cut -c1-200
